@@ -128,3 +128,49 @@ func vUDPInbound(big bool) {
 	vCover(vAnd(!authorised, vIPEq(src.IP, permPeer.IP) == false), "C02.cover_discard")
 	vReach("end")
 }
+
+// Two datagrams in a row: the attribution of the second must not depend on the first (no state kept
+// between datagrams): peers that share an IP but differ in port, one bound to a channel.
+//
+//verif:props=C05,C02 unwind=20 bounds="allocation with one channel binding; two datagrams (0..4 bytes) from arbitrary IPv4 sources, in particular the bound peer followed by the same IP on another port"
+func VerifHarness_C05_two_datagrams() {
+	env := VNewManager(false, false)
+	m := env.M
+	turnA := &VPacketConn{Name: "turnA"}
+	ftA := VFiveTuple()
+	a, err := m.CreateAllocation(ftA, turnA, proto.ProtoUDP, 0, 600*time.Second, "u1", "realm", proto.RequestedFamilyIPv4)
+	vAssume(err == nil)
+	log := &VLogger{}
+	bindPeer := VUDPAddr4()
+	num := proto.ChannelNumber(vU16())
+	vAssume(a.AddChannelBind(NewChannelBind(num, bindPeer, log), 600*time.Second, 300*time.Second) == nil)
+	src1, src2 := VUDPAddr4(), VUDPAddr4()
+	d1, d2 := vBytes(4), vBytes(4)
+	env.Relays[0].Script = []VDatagram{{Data: d1, From: src1}, {Data: d2, From: src2}}
+	vRunSpawn(0)
+	by1, by2 := VSameUDP(src1, bindPeer), VSameUDP(src2, bindPeer)
+	perm1, perm2 := vIPEq(src1.IP, bindPeer.IP), vIPEq(src2.IP, bindPeer.IP)
+	want := 0
+	if perm1 {
+		want++
+	}
+	if perm2 {
+		want++
+	}
+	vAssert(len(turnA.Writes) == want, "C02.each_authorised_datagram_forwarded_once")
+	vAssert(len(turnA.Writes) == want, "C05.each_datagram_forwarded_exactly_once")
+	// look at how the second datagram was forwarded
+	if perm2 {
+		w := turnA.Writes[want-1]
+		isCD := vAnd(w.P[0] >= 0x40, w.P[0] <= 0x7F)
+		vAssert(isCD == by2, "C05.channeldata_only_for_the_exact_bound_source")
+		if !by2 {
+			// Data indication: XOR-PEER-ADDRESS port is the real source port
+			port := (int(w.P[26])<<8 | int(w.P[27])) ^ 0x2112
+			vAssert(port == src2.Port, "C05.second_datagram_attributed_to_its_real_source")
+		}
+	}
+	_ = by1
+	vCover(vAnd(by1, vAnd(perm2, !by2)), "C05.cover_bound_peer_then_same_ip_other_port")
+	vReach("end")
+}
